@@ -1,7 +1,7 @@
 """C14 - resume picks its own source's newest checkpoint and reads what the sender wrote.
 
 Checkpoint.tla generates every target state reachable by a few sender writes / partial damages from
-three sources (two of them prefix-related: h:63, h:6379) into three databases and carries, per state,
+three sources (two of them prefix-related: h:63, h:6379; one with dashes in its host name: x-1.y:1) into three databases and carries, per state,
 the contract's answer LoadExp(source) (newest own offset, run id or unknown, database, refusal of an
 incompatible version, which stale own entries are removed).  TLC checks the contract's consequences in
 every state; the driver installs each (sampled: quick / all: thorough) state in the model Redis over
